@@ -85,7 +85,8 @@ SPECS = {
                atoms=[("torch.numel(A)", "numel", "Z"), ("A.numel()", "numel", "Z"), ("A.shape", "shape", "list Z"), ("A.dim()", "(py_len shape)", "Z"),
                       ("is_diagonal", "is_diagonal", "bool"), ("type(root_inv_config) is EigenConfig", "is_eigen", "bool"), ("type(root_inv_config) is CoupledNewtonConfig", "is_newton", "bool"),
                       ("type(root_inv_config) is CoupledHigherOrderConfig", "is_higher_order", "bool"), ("root.denominator", "denominator", "Z")],
-               actions={r"re:return \(.*\+ epsilon\) \*\* torch\.as_tensor\(-1\.0 / root\)": 0, "_matrix_inverse_root_diagonal": 1, "_matrix_inverse_root_eigen": 2,   # 0: the 1x1 formula, however its operand is named
+               opaque=[r"\w+ = A - torch\.minimum\(A, torch\.zeros_like\(A\)\)"],     # the shifted 1x1 entry, bound to a local first
+               actions={r"re:return \(((?!A\b)\w+|A - torch\.minimum\(A, torch\.zeros_like\(A\)\)) \+ epsilon\) \*\* torch\.as_tensor\(-1\.0 / root\)": 0, "_matrix_inverse_root_diagonal": 1, "_matrix_inverse_root_eigen": 2,   # 0: the 1x1 formula, however its operand is named
                         "_matrix_inverse_root_newton": 3, "_matrix_inverse_root_higher_order": 4}),
     ]),
     "C12": ("GenC12", "EquivC12.v", "", [
